@@ -102,8 +102,8 @@ class C04(DimwiseCheck):
             cfg = ES.gen_cfg(r, tier) if strategy == "extend_split" else ES.gen_cell_cfg(r, tier)
             cfg["strategy"] = strategy
             cfg["boundary"] = True      # multilinear functions do not vanish on the boundary
-            if strategy == "extend_split" and (cfg["lmin"] == cfg["lmax"] or (cfg["version"] in (1, 2) and cfg["lmin"] >= 2)):
-                cfg["automatic"] = False    # these combinations raise inside the benefit estimate (known findings of C07)
+            if strategy == "extend_split" and cfg["lmin"] == cfg["lmax"]:
+                cfg["automatic"] = False    # this combination raises inside the benefit estimate (known finding of C07)
             p = stream(rk, "probes")
             cfg["probes"] = [["ml", [[round(p.uniform(-2, 2), 3), round(p.uniform(-2, 2), 3)] for _ in range(cfg["dim"])]] for _ in range(3)] + \
                             DS.linear_probes(p, cfg["dim"], 1)
